@@ -169,14 +169,14 @@ func taskfile(c Cfg) string {
 		if c.Label {
 			b.WriteString("    label: 'same label'\n")
 		}
-		b.WriteString("    cmds:\n      - echo 1 >> \"$TRACE\"\n      - task: pre\n      - test ! -f \"$CTL/cancelsib\" || sleep 1\n      - test ! -f \"$CTL/fail1\"\n      - test ! -f \"$CTL/kill1\" || sh -c 'kill -KILL $PPID'\n")
+		b.WriteString("    cmds:\n      - echo 1 >> \"$TRACE\"\n      - task: pre\n      - test ! -f \"$CTL/cancelsib\" || sleep 2\n      - test ! -f \"$CTL/fail1\"\n      - test ! -f \"$CTL/kill1\" || sh -c 'kill -KILL $PPID'\n")
 		if c.Gen {
 			b.WriteString("      - touch out.gen\n")
 		}
 		b.WriteString("      - echo 2 >> \"$TRACE\"\n      - test ! -f \"$CTL/fail2\"\n      - test ! -f \"$CTL/kill2\" || sh -c 'kill -KILL $PPID'\n")
 	}
 	fmt.Fprintf(&b, "  wrapdep:\n    deps: ['%s']\n", t)
-	fmt.Fprintf(&b, "  wrap:\n    deps: ['%s', sib]\n  sib:\n    cmds:\n      - sleep 0.3; exit 1\n", t)
+	fmt.Fprintf(&b, "  wrap:\n    deps: ['%s', sib]\n  sib:\n    cmds:\n      - sleep 0.7; exit 1\n", t)
 	b.WriteString("  pre:\n    preconditions:\n      - test ! -f \"$CTL/failpre\"\n")
 	b.WriteString("  d:\n    dir: ./newdir\n    status: ['test -f nope']\n    cmds:\n      - echo 3 >> \"$TRACE\"\n")
 	return b.String()
